@@ -104,6 +104,8 @@ def project(raw_events, scenario, bound=None):
                 o["events"] = sorted(set(x if x in ("INVOKE", "SHUTDOWN") else "OTHER" for x in evs))
                 o["big"] = bool(ev.get("rawBody"))
                 o["feat"] = "accountId" in (ev.get("features") or "")
+            elif kind == "RouteCall":
+                o["name"] = ev.get("cls", "")
             elif kind == "NextCall" and o["who"] != "rt":
                 o["idc"] = ev.get("idc") or "ok"
                 o["agen"] = ev.get("idgen", 0)
@@ -122,10 +124,11 @@ def project(raw_events, scenario, bound=None):
                 pl = ev.get("payload", "")
                 m = re.match(r"^p(\d+)$", pl or "")
                 if o["who"] == "rt" and o["kind"] == "INVOKE":
-                    o["pl"] = int(m.group(1)) if m else -1
+                    o["pl"] = int(m.group(1)) if m else (0 if pl == "empty" else -1)
         elif kind == "InvokeCall":
             m = re.match(r"^p(\d+)$", ev.get("payload", ""))
-            o.update(e="InvokeCall", caller=ev["caller"], k=ev["k"], pl=int(m.group(1)) if m else -1,
+            o.update(e="InvokeCall", caller=ev["caller"], k=ev["k"],
+                     pl=int(m.group(1)) if m else (0 if ev.get("payload") == "empty" else -1),
                      big=ev.get("size", 0) > MAX_PAYLOAD)
         elif kind == "InvokeRet":
             o.update(e="InvokeRet", caller=ev["caller"], k=ev["k"], out=ev.get("err", ""), body=body_label(ev.get("body")),
